@@ -566,7 +566,7 @@ def run(ctx):
     t_start = time.time()
     rng = ctx.rng
     shared.validate_hashes(ctx, EXE)
-    n_flows = ctx.n(60, 500)
+    n_flows = ctx.n(60, 2500)
     specs = []
     # every shape at least once on its own, under a rotating hash type
     for k, sh in enumerate(SHAPES):
@@ -575,8 +575,8 @@ def run(ctx):
         specs.append(flow_spec(rng, len(specs)))
     fin_cases, fintap_cases, msg_cases, verdict_cases, tamper_verdict = [], [], [], [], []
     n_tamper = 0
-    budget_verdict = ctx.n(260, 3000)
-    budget_tv = ctx.n(150, 2000)
+    budget_verdict = ctx.n(260, 8000)
+    budget_tv = ctx.n(150, 5000)
     for no, spec in enumerate(specs):
         ok = ctx.check("closure", spec, key="closure." + "+".join(sorted(set(s.split("(")[0] for s in spec["shapes"]))))
         if not ok:
